@@ -439,6 +439,15 @@ struct Runner {
         vcp = vnacal_create(errlog_fn, &log);
         PBT_CHECK(c, vcp != nullptr, "cal.create", "vnacal_create failed");
     }
+    // unrelated parameters made before anything else, two thirds of them deleted again: the handles of the scenario's
+    // own parameters become sparse and partly recycled (hash chains of the vnacal_new_t's parameter table collide)
+    void make_fillers(int n, pbt::Ctx &d) {
+        std::vector<int> h;
+        for (int i = 0; i < n; i++) { int x = vnacal_make_scalar_parameter(vcp, mkc(0.11 + 0.01 * i, -0.07)); PBT_CHECK(c, x >= 3, "cal.make_parameter", "make filler parameter failed: %s", log.text().c_str()); h.push_back(x); }
+        // delete a run of them (a hole at a random height) plus scattered single ones
+        size_t lo = d.draw(h.size()), len = 1 + d.draw(h.size() - lo);
+        for (size_t i = 0; i < h.size(); i++) if ((i >= lo && i < lo + len) || d.chance(1, 4)) vnacal_delete_parameter(vcp, h[i]);
+    }
     void alloc() {
         vnp = vnacal_new_alloc(vcp, LIBTYPE[sc.type], sc.r, sc.c, sc.F);
         PBT_CHECK(c, vnp != nullptr, "cal.new_alloc", "vnacal_new_alloc(%s,%d,%d,%d) failed: %s", vm::tname(sc.type), sc.r, sc.c, sc.F, log.text().c_str());
